@@ -468,11 +468,13 @@ func (g *cgen) text(nLines int) []byte {
 	case 3:
 		b.WriteString("  \n ") // blanks, then a blank first line: initial indent is counted, first line is dropped
 	}
+	started := false
 	for i := 0; i < nLines; i++ {
 		l := g.line()
-		if strings.TrimSpace(l) == "" && b.Len() == 0 {
+		if strings.TrimSpace(l) == "" && !started {
 			continue // leading blank lines only where planned (they are a known finding)
 		}
+		started = true
 		if l == "" {
 			// runs of blank lines (the newLines table has 16 entries)
 			k := 1
@@ -642,7 +644,7 @@ func (c icase) op() string {
 
 func runIndent(r *hlib.Run) {
 	rnd := r.Rand.Fork()
-	nGen, nChunk, nMal := 12000, 400, 1500
+	nGen, nChunk, nMal := 9000, 300, 1200
 	if r.Thorough {
 		nGen, nChunk, nMal = 1200000, 30000, 100000
 	}
@@ -765,6 +767,10 @@ func runIndent(r *hlib.Run) {
 	for i, c := range cases {
 		resp := resps[i]
 		status := string(resp[0])
+		if status == "skipped" {
+			r.Count("indent:skipped-after-hangs")
+			continue
+		}
 		whole := strings.HasPrefix(c.origin, "whole:")
 		li := lexScan(c.src)
 		r.Count("indent:origin:" + strings.SplitN(c.origin, ":", 2)[0])
